@@ -32,7 +32,9 @@ def member_seek_rule(repo: Repo, rep: Report, rid: str) -> None:
         rep.check(bool(seeks) and g.must_pass(lp.id, n.id, seeks), rid, f"{fi.key}:{short(c, 60)}", f"{buf}.seek(base + member offset) precedes the member read",
                   "a union member can be read without first seeking the buffer to that member's offset: members would be parsed back to back "
                   "instead of overlaying each other", fi.loc(c))
-        rep.check(len(c.args) >= 2 and norm(c.args[1]) == "result", rid, f"{fi.key}:context", "members see earlier members as context",
+        from ..util import in_progress_result_names
+
+        rep.check(len(c.args) >= 2 and norm(c.args[1]) in in_progress_result_names(fi.node), rid, f"{fi.key}:context", "members see earlier members as context",
                   "members are not given the in-progress result as context", fi.loc(c))
     priv = [s for s in walk_body(fi.node.body) if isinstance(s, ast.Assign) and isinstance(s.value, ast.Call) and call_name(s.value) == "BytesIO"]
     ok = len(priv) == 1 and isinstance(priv[0].value.args[0], ast.Call) and call_name(priv[0].value.args[0]) == "read" and \
